@@ -100,6 +100,29 @@ def gen(args):
     return recs
 
 
+def gen_extras(seqs):
+    """behaviour beyond C05 that rests on the same extrema rules: is_imf's count criterion, zero_crossing_count,
+    find_extrema_locked_epochs (only where it is defined: at least two extrema of the requested kind)"""
+    emd = core.import_emd()
+    recs = []
+    for sq in seqs:
+        x = np.array(sq, dtype=float)
+        o = core.guarded(emd.sift.is_imf, x)
+        recs.append({'kind': 'isimf', 'sig': list(sq), 'out': -99 if isinstance(o, str) else int(bool(o[0, 0]))})
+        o = core.guarded(emd.sift.zero_crossing_count, x)
+        recs.append({'kind': 'zc', 'sig': list(sq), 'out': -99 if isinstance(o, str) else int(o)})
+        for mode in ('peaks', 'troughs'):
+            src = x if mode == 'peaks' else -x
+            npk = sum(1 for j in range(1, len(x) - 1) if src[j] > src[j - 1] and src[j] > src[j + 1])
+            if npk < 2:
+                continue
+            for win in (2, 4):
+                o = core.guarded(emd.utils.find_extrema_locked_epochs, x, win, lock_to=mode)
+                recs.append({'kind': 'epochs', 'sig': list(sq), 'winsize': win, 'mode': mode,
+                             'out': [[-99, -99]] if isinstance(o, str) else [[int(a), int(b)] for a, b in np.asarray(o).reshape(-1, 2)]})
+    return recs
+
+
 def gen_float(args):
     seed, count = args
     emd = core.import_emd()
@@ -187,6 +210,10 @@ def run():
                 buf = []
         if buf:
             bad += core.validate_records(ctx, 'ExtremaRec', buf, name='ExtremaRec')
+        xs = [q for q in seqs if len(q) <= ctx.pick(6, 8)]
+        ex = [r for rs in pool.imap_unordered(gen_extras, [xs[i:i + 200] for i in range(0, len(xs), 200)]) for r in rs]
+        bad += core.validate_records(ctx, 'ExtremaRec', ex, name='ExtremaRec-extras')
+        ctx.leg('extras', is_imf_zero_crossing_epoch_records=len(ex))
         nf = ctx.pick(1600, 16000)
         fl = [r for rs in pool.imap_unordered(gen_float, [(ctx.seed * 1000 + i, nf // 16) for i in range(16)]) for r in rs]
     bad += core.validate_records(ctx, 'ExtremaRec', fl, name='ExtremaRec-float')
